@@ -31,7 +31,7 @@ FRAGMENTS = [
     "a\\b", "\\1", "\\g<9>", "\\9", "\\", "x\\", "\\\\", "\\n", "\\g<prefix>", "(", ")", "[", "]", "*", "+?", "{2}", "(?P<x>", "$", "^", "|", ".*",
     "$1$", "$1$$", "$1$abc", "$1$$x", "$1$salt$", "$1$" + "s" * 9 + "$" + "h" * 22, "$1$" + "s" * 20 + "$h", "$1$a$b$c", "$1$\\$x",
     "$9$", "$9$a", "$9$ab", "$9$abc", "$9$!!!!", "$9$abcd", "$9$" + J9A[:7], "$9$Q" + "z" * 3, "$9$QzF3" + "n6/" * 5 + "9", "$9$ééééé", "$9$$9$$9$aaaa",
-    "$6$", "$6$x", "$6$rounds=abc$x$y", "$6$$", "$6$rounds=1$" + "s" * 40 + "$h", "$5$x$y", "$2a$10$abc",
+    "$6$", "$6$x", "$6$rounds=abc$x$y", "$6$$", "$6$rounds=656000", "$6$rounds=5000$", "$6$rounds=1$x", "$6$rounds=", "$6$rounds=5000$$", "$1$rounds=5$x", "$6$rounds=1$" + "s" * 40 + "$h", "$5$x$y", "$2a$10$abc",
     "fe80:%x", "fe80:::1%x", "::::", ":::", "1::2::3", "fe80::%", "::ffff:999.1.1.1", "1.2.3.4.5", "256.256.256.256", "fe80:%", "fe80::1%eth0",
     "1:2:3:4:5:6:7:8:9", "::ffff:1.2.3.4", "1.2.3.4/999", "0000000001.2.3.4", "::/0", "::1.2.3", "ff02::1:ff00:0/104",
     "\x00", "\x00\x00", "\U0001F600", "‮abc", "é", "１２３", "٣٤٥", " ", " ", " ", "﻿", "퟿", "\x1f", "\x7f", "\x85",
